@@ -3,7 +3,10 @@ module verifharness
 go 1.16
 
 require (
+	github.com/coreos/etcd v3.3.26+incompatible
 	github.com/tjfoc/gmsm v1.4.1
+	go.etcd.io/etcd v3.3.26+incompatible
+	go.mongodb.org/mongo-driver v1.7.3
 	golang.org/x/crypto v0.0.0-20210921155107-089bfa567519
 	google.golang.org/protobuf v1.26.0
 	qchen.fun/fatchoy v0.0.0
